@@ -46,6 +46,15 @@ func genC16Conc(rt *rapid.T) c16Case {
 				c.Stalled = append(c.Stalled, i)
 			}
 		}
+		// and somebody outside the hub loop keeps sending to one of them, past what its queue holds
+		if len(c.Stalled) > 0 && lang.Spread(rt, "flood", 2) == 0 {
+			target := c.Stalled[lang.Spread(rt, "floodconn", len(c.Stalled))]
+			th := []c16Op{{Op: "connect", Conn: target}}
+			for k := 0; k < c.Queue+2+lang.Spread(rt, "floodn", 4); k++ {
+				th = append(th, c16Op{Op: "direct", Conn: target, Act: &c16Act{A: "send"}})
+			}
+			c.Threads = append(c.Threads, th)
+		}
 	}
 	return c
 }
